@@ -59,6 +59,18 @@ def bernoulli_sites(rep: Report, fi: FuncInfo, prob_attr: str) -> int:
             rep.violation("BERNOULLI", fi, construct, "non-strict comparison: at p = 0 a draw U == 0 still triggers the event (probability 0 is not the identity)", node=c)
         else:
             rep.violation("BERNOULLI", fi, construct, "the event probability is 1 - p (or otherwise not increasing in p): comparison is reversed", node=c)
+    # resolution of the uniform draws: a half-precision sampler has a grid of 2^-11 and extra mass on exact values,
+    # so P(U < p) is not p for small p
+    for c in ast.walk(fi.node):
+        if isinstance(c, ast.Call) and (call_name(c) or "") in RAND:
+            dt = next((k.value for k in c.keywords if k.arg == "dtype"), None)
+            if dt is not None and attr_chain(dt) in ("torch.float16", "torch.half", "torch.bfloat16", "torch.float8_e4m3fn", "torch.float8_e5m2"):
+                rep.violation("BERNOULLI", fi, f"uniform draw: {unparse(c)[:80]}", f"the uniform samples are drawn in {attr_chain(dt)}: their grid (2^-11 or coarser, with excess mass on exact grid points such as 0) makes P(U < p) differ from p - the flip/erasure rate is biased for small probabilities", node=c)
+                n += 1
+    # a store through reshape()/flatten()/contiguous() may hit a temporary copy (non-contiguous tensors): the event is lost
+    from ..speciallint import lint_store_through_copy
+
+    n += lint_store_through_copy(rep, fi, "TRANSITION")
     for c in ast.walk(fi.node):
         if isinstance(c, ast.Call) and call_name(c) == "torch.bernoulli":
             n += 1
